@@ -38,7 +38,10 @@ RULE = ("direct oracle (model-free fuzz): for every generated description (odxge
         "arrangements of TABLE-KEY / TABLE-STRUCT (126 descriptions) on PDUs whose key is a row's key, a valid value of the KEY-DOP without a "
         "row, the key of two rows, or no value of the KEY-DOP, their prefixes and every single-byte mutation; these two families and the corpus "
         "also through the public entry points of the generated document (Request/Response.decode, DiagService.decode_message, "
-        "DiagLayer.decode, DiagLayer.decode_response); corpus, enumerated families and every second random document (all in the thorough tier) are decoded "
+        "DiagLayer.decode, DiagLayer.decode_response); an ENV-DATA-DESC behind 14 kinds of DTC parameter (DTC-DOPs, ordinary DOPs incl. LINEAR with "
+        "limits / TEXTTABLE, CODED-CONST, PHYS-CONST) x 5 arrangements of ENV-DATAs x 7 placements (490 descriptions; quick one placement per pair = 70) "
+        "on PDUs whose DTC is 0, 1, a code with / without environment data, the largest code, a code the DTC-DOP does not know: every proper "
+        "prefix of such a PDU (its described length follows from the selected ENV-DATAs) must be rejected; corpus, enumerated families and every second random document (all in the thorough tier) are decoded "
         "in strict mode and again in lenient mode (strict_mode = False; termination and exception class only). Failing input = any exception not derived from "
         "DecodeError, a hang (5 s alarm), a proper prefix that cuts a described object of a static layout -- or of the static prefix of a layout that "
         "ends in objects which tolerate an exhausted PDU -- and is not rejected, or a result "
@@ -656,6 +659,44 @@ def table_key_family(run_, ctx, big):
                       lenient=True, entries=ents, entries_lenient=big or fam in ("hand", "own"))
 
 
+def env_data_family(run_, ctx, big):
+    """enum-env-data-descs (round 7): an ENV-DATA-DESC behind every kind of DTC parameter (14) x every arrangement of ENV-DATAs (5) x
+    7 placements; PDUs whose DTC is 0, 1, a code with / without environment data of its own, the largest code, a code unknown to
+    the DTC-DOP (resp. the constant / not the constant). The number of bytes the description describes for each hand-written PDU
+    follows from the selected ENV-DATAs: every proper prefix has to be rejected. The model does not follow ENV-DATA-DESCs:
+    direct oracle only."""
+    rng = ctx.sub_rng("env-data-descs")
+    idx = 0
+    for comp, info in C5.enum_env_data_descs(None if big else rng):
+        idx += 1
+        if big and info["placement"] != "direct" and idx % 3 != ctx.seed % 3:
+            continue        # thorough: every (DTC parameter, ENV-DATAs) in the placement `direct` + a third of the other placements per seed
+        L, obj, entries = load_alone(ctx, comp)
+        if L is None:
+            continue
+        O.record_features(ctx, comp)
+        ctx.histo("family", "enum-env-data-descs")
+        ctx.histo("env_dtc_param", info["dtc-param"])
+        ctx.histo("env_sets", info["envs"])
+        ctx.histo("env_placement", info["placement"])
+        static_need = slot_need(comp)
+        own, trigs = own_encodings(rng, comp, obj, 2)
+        hand = [p for _w, p, _n in info["pdus"]]
+        needs = {}
+        for w, p, n in info["pdus"]:
+            ctx.histo("env_dtc_on_the_wire", w)
+            for k in range(len(p) + 1):
+                # (a prefix that belongs to several PDUs does not hold the whole DTC: the smallest claim is right for it)
+                needs[p[:k]] = min(needs.get(p[:k], n or 0), n or 0)
+        feats = ["env-data-desc", "dtc-param:" + info["dtc-param"]]
+        for fam, b in C5.key_strings(rng, hand, own, [w for w, _p, _n in info["pdus"]]):
+            need = max(needs.get(b, 0), static_need or 0) if fam in ("hand", "prefix") else static_need
+            ents = entries if big or fam in ("hand", "own", "prefix") else [e for e in entries if e[0] in C5.LITE_ENTRIES] if fam == "mutation" else None
+            run_.case(comp, obj, b, fam, need, None, True, invention=False, fixed_features=feats, shrink=False, corr=False,
+                      what=f"enum-env-data-descs: DTC parameter {info['dtc-param']}, ENV-DATAs {info['envs']}, {info['placement']} on {b.hex() or '-'} ({fam})",
+                      lenient=True, entries=ents, entries_lenient=big or fam in ("hand", "own"))
+
+
 # ------------------------------------------------------------------ generated descriptions
 def run_doc(run, comp, family, rng, big, lenient=True, with_entries=False):
     ctx = run.ctx
@@ -689,6 +730,14 @@ def run(ctx):
     big = ctx.tier == "thorough"
     rng = ctx.rng
     run_ = Run(ctx)
+    import time
+    clock = [time.time()]
+
+    def phase(name):
+        """seconds spent per family (evidence: histogram phase_seconds) -- the quick tier has a budget"""
+        now = time.time()
+        ctx.histo("phase_seconds", name, round(now - clock[0], 1))
+        clock[0] = now
     # (a) corpus
     for tag, c, msgs, feats in corpus():
         L, err = O.safe_load(c)
@@ -703,8 +752,10 @@ def run(ctx):
             run_.case(c, L[c.name], m, "corpus", None, None, True, False, fixed_features=feats, shrink=False,
                       what=f"corpus witness '{tag}' fails again on {m.hex() or '-'}", entries=entries)
     run_.corr.flush()
+    phase("corpus")
     # (b) the shipped database
     somersault_family(ctx, big)
+    phase("somersault")
     # (c) enumerated standard-length objects (static layouts: every truncation must be rejected)
     bitlens = sorted(set(V.BIAS_LENGTHS + [2, 12, 24, 48])) if not big else list(range(1, 65))
     comps = list(G.enum_std_numeric(bitlens, bitposs=(0, 5) if not big else (0, 3, 7))) + list(G.enum_std_other((0,)))
@@ -723,6 +774,7 @@ def run(ctx):
             for fam, b, k in M.byte_strings(rng, own, M.BASE_ALPHABET + [0x22], maxlen=1, n_random=4, n_mut=4):
                 run_.case(c, L[c.name], b, fam, need, None, False, invention=k is not None, shrink=False, corr=(fam in ("own", "prefix", "random") or big))
         run_.corr.flush()
+    phase("enum-std")
     # (c') static fields whose items have an input-dependent size (an item can be larger than ITEM-BYTE-SIZE); length keys behind
     # every kind of DOP (identical, signed, LINEAR: the bit length may come out negative) used by PARAM-LENGTH-INFO objects
     comps, keys = list(G.enum_dynamic_static_fields()), list(G.enum_length_keys())
@@ -740,13 +792,21 @@ def run(ctx):
         for fam, b, k in M.byte_strings(rng, own, alpha, maxlen=2, n_random=12, n_mut=48, small_cap=60):
             run_.case(c, L[c.name], b, fam, None, None, True, invention=False)
     run_.corr.flush()
+    phase("enum-dynamic-static-field+length-key")
     # (c'') DOPs behind every compu category (rational functions with poles, piecewise and interpolated functions, float objects)
     compu_dop_family(run_, ctx, big)
+    phase("compu-dop")
     # (c3) round 6: objects of every width (beyond the 64 bits of the extraction routine), tables behind every kind of KEY-DOP
     wide_family(run_, ctx, big)
+    phase("enum-wide-objects")
     table_key_family(run_, ctx, big)
+    phase("enum-table-key-dops")
+    # (c4) round 7: ENV-DATA-DESCs behind every kind of DTC parameter, every numerical DTC that matters (0, 1, with / without
+    # environment data, the largest, unknown)
+    env_data_family(run_, ctx, big)
+    phase("enum-env-data-descs")
     # (d) random composites
-    n_docs = 4200 if big else 1000
+    n_docs = 4100 if big else 960          # (round 7: 4200 -> 4100, 1000 -> 960: makes room for enum-env-data-descs)
     for i in range(n_docs):
         prof = (G.THOROUGH if big else G.QUICK) if i % 3 else (G.SIMPLE_DEEP if big else G.SIMPLE)
         try:
@@ -759,6 +819,7 @@ def run(ctx):
         if i % 60 == 59:
             run_.corr.flush()
     run_.corr.flush()
+    phase("random")
 
 
 def replay(ctx, data):
